@@ -406,7 +406,7 @@ theorem afterBase_s (L : StL σ χ) (s' : Compose.St σ χ) :
   · exact .inl rfl
 
 /-- one event keeps the no-crash invariants -/
-theorem safe_stepL {c : Compose.Conf} (hguard : c.guard = true) (hfix : c.bot.fixed = true)
+theorem safe_stepL {c : Compose.Conf} (hguard : c.guard = true) (hrep : c.replay = true) (hfix : c.bot.fixed = true)
     (hvar : ∀ var, confVariant c = some var → VariantTotal var) (S : Searcher σ χ) (mk : Int → σ) {p0 : Pos}
     {L : StL σ χ} (hI : SafeInv c p0 L.s) (hD : DeadBySearch S L.s) (e : EvL χ) (hchk : ChkOKL c S mk L [e]) :
     SafeInv c p0 (stepL c S mk L e).s ∧ DeadBySearch S (stepL c S mk L e).s := by
@@ -415,8 +415,9 @@ theorem safe_stepL {c : Compose.Conf} (hguard : c.guard = true) (hfix : c.bot.fi
       SafeInv c p0 (afterBase L1 (Compose.step c S L1.s ev)).s ∧
       DeadBySearch S (afterBase L1 (Compose.step c S L1.s ev)).s := by
     intro L1 ev hI1 hD1 hc1
-    have hI' := safeInv_step hfix S hI1 ev
-    have hD' := deadBySearch_step_of c hguard hvar S hI1 hD1 ev hc1
+    have hI' := safeInv_step hrep hfix S hI1 ev
+    have hD' := deadBySearch_step_of c hguard hrep S hI1 hD1 ev hc1
+      (ruleOK_run_of_variantTotal c hrep hfix hvar S [ev] _ hI1)
     rcases afterBase_s L1 (Compose.step c S L1.s ev) with h | ⟨e', h, hret⟩
     · rw [h]; exact ⟨hI', hD'⟩
     · rw [h]
@@ -463,7 +464,7 @@ theorem safe_stepL {c : Compose.Conf} (hguard : c.guard = true) (hfix : c.bot.fi
           rw [hnd] at this; cases this
       exact key _ _ hI2 hD2 ⟨trivial, trivial⟩
 
-theorem safe_runL {c : Compose.Conf} (hguard : c.guard = true) (hfix : c.bot.fixed = true)
+theorem safe_runL {c : Compose.Conf} (hguard : c.guard = true) (hrep : c.replay = true) (hfix : c.bot.fixed = true)
     (hvar : ∀ var, confVariant c = some var → VariantTotal var) (S : Searcher σ χ) (mk : Int → σ) {p0 : Pos}
     (evs : List (EvL χ)) : ∀ (L : StL σ χ), SafeInv c p0 L.s → DeadBySearch S L.s → ChkOKL c S mk L evs →
       DeadBySearch S (runL c S mk L evs).s := by
@@ -471,17 +472,18 @@ theorem safe_runL {c : Compose.Conf} (hguard : c.guard = true) (hfix : c.bot.fix
   | nil => intro L _ hD _; exact hD
   | cons e es ih =>
     intro L hI hD hchk
-    obtain ⟨hI', hD'⟩ := safe_stepL hguard hfix hvar S mk hI hD e ⟨hchk.1, trivial⟩
+    obtain ⟨hI', hD'⟩ := safe_stepL hguard hrep hfix hvar S mk hI hD e ⟨hchk.1, trivial⟩
     exact ih _ hI' hD' hchk.2
 
 /-- **`bot_never_dead_level`** — `bot_dead_only_by_search` / `bot_never_dead_guarded` with the chat commands: on the
-tree as it is (`guard = true`), with a rule whose code is total (`VariantTotal`) and sane check verdicts, for EVERY list of
+tree as it is (`guard = true`, `replay = true`), with a rule whose code is total (`VariantTotal`: none, centre) and sane check verdicts, for EVERY list of
 events INCLUDING chat lines from anybody at any moment (so also `level n` replacing `f.ai` under a searching thinker):
 a lost thinker goroutine can only be an error raised by the searching player itself in the call in progress; and with a
 searching player (and engines built by `level`) that answer on every `size`×`size` position from every `G` state, no
 thinker goroutine is ever lost.  Handling a chat line itself cannot panic (`handleCommand` indexes `levels[level-1]`
 only with `1 ≤ level`, clamped to the table). -/
-theorem bot_never_dead_level (c : Compose.Conf) (hguard : c.guard = true) (hfix : c.bot.fixed = true)
+theorem bot_never_dead_level (c : Compose.Conf) (hguard : c.guard = true) (hrep : c.replay = true)
+    (hfix : c.bot.fixed = true)
     (hsize : 3 ≤ c.size ∧ c.size ≤ 8) (hvar : ∀ var, confVariant c = some var → VariantTotal var)
     (S : Searcher σ χ) (G : σ → Prop)
     (hS : ∀ x p e m e', p.cfg.size = c.size → G e → S.run x p e = .ok (m, e') → G e')
@@ -491,7 +493,7 @@ theorem bot_never_dead_level (c : Compose.Conf) (hguard : c.guard = true) (hfix 
     ((∀ x p e, p.cfg.size = c.size → G e → ∃ r, S.run x p e = .ok r) →
       (runL c S mk (startL c secs mk level) evs).s.dead = none) := by
   obtain ⟨p0, hI⟩ := safeInv_start (χ := χ) c hsize secs (mk level)
-  have hD := safe_runL hguard hfix hvar S mk evs (startL c secs mk level) hI (fun _ h => by cases h) hchk
+  have hD := safe_runL hguard hrep hfix hvar S mk evs (startL c secs mk level) hI (fun _ h => by cases h) hchk
   refine ⟨hD, fun hT => ?_⟩
   obtain ⟨p1, hb0⟩ := baseInv_start c hsize S G secs (mk level) (hmk level)
   obtain ⟨hb, _⟩ := inv_runL hfix hsize hS mk hmk evs (startL c secs mk level) hb0 (ginv_startL c secs mk G level)
@@ -588,10 +590,10 @@ open ExL Ex in
 /-- non-vacuity of `bot_never_dead_level`: the schedule above (a `level` line under a searching thinker) meets its
 hypotheses — guard on, no rule, verdicts sane — and nobody dies (`level_now_while_searching`) -/
 example :
-    (conf .white 5 (.friendly none) true).guard = true ∧
+    (conf .white 5 (.friendly none) true).guard = true ∧ (conf .white 5 (.friendly none) true).replay = true ∧
     (∀ var, confVariant (conf .white 5 (.friendly none) true) = some var → VariantTotal var) ∧
     ChkOKL (conf .white 5 (.friendly none) true) cnt mkc (startL (conf .white 5 (.friendly none) true) 600 mkc Facts.defaultLevel) evs ∧
     (goL (conf .white 5 (.friendly none) true) evs).s.dead = none :=
-  ⟨rfl, (fun _ h => by cases h), chkOKL_of_noAsk _ _ _ _ _ (by decide), level_now_while_searching.2.2.2.2.2.2.2.2.2.2⟩
+  ⟨rfl, rfl, (fun _ h => by cases h), chkOKL_of_noAsk _ _ _ _ _ (by decide), level_now_while_searching.2.2.2.2.2.2.2.2.2.2⟩
 
 end C07
